@@ -1,6 +1,8 @@
 #!/bin/sh
 # Must-fail self-test: applies every mutant patch of the given properties (default: all)
 # to a scratch worktree of /repo's HEAD and expects the property's check to report a VIOLATION.
+# Must-pass part: selftest/harmless/<prop>/*.patch are changes under which the property still
+# holds (e.g. a correct fast path); the check has to stay silent on them.
 # usage: selftest/run.sh [C10 C09 ...]
 V="$(cd "$(dirname "$0")/.." && pwd)"
 cd "$V" || exit 2
@@ -23,6 +25,24 @@ for p in $props; do
         echo "SELFTEST-OK   $patch: detected ($n violation lines, $c with replayed input)"
       else
         echo "SELFTEST-MISS $patch: rc=$rc"; echo "$out" | tail -3; fail=1
+      fi
+    fi
+    git -C /repo worktree remove --force "$wt"; rm -rf "$tmpv"
+  done
+  for patch in selftest/harmless/$p/*.patch; do
+    [ -f "$patch" ] || continue
+    wt="/var/tmp/b6vc-selftest-$$"
+    tmpv="/var/tmp/b6vc-selftest-v-$$"
+    rm -rf "$wt" "$tmpv"
+    git -C /repo worktree add -q --detach "$wt" HEAD || exit 2
+    mkdir -p "$tmpv"; ln -s "$V/props" "$tmpv/props"; ln -s "$V/known_findings.json" "$tmpv/known_findings.json"; ln -s "$V/witness" "$tmpv/witness"
+    if ! git -C "$wt" apply "$V/$patch"; then echo "SELFTEST-ERROR $patch does not apply"; fail=1
+    else
+      out="$(VERIF_REPO="$wt" VERIF_DIR="$tmpv" bin/b6vc check "$p" quick 2>&1)"; rc=$?
+      if [ $rc -eq 0 ] && ! echo "$out" | grep -q "^VIOLATION"; then
+        echo "SELFTEST-OK   $patch: harmless change accepted"
+      else
+        echo "SELFTEST-FALSE-ALARM $patch: rc=$rc"; echo "$out" | grep "^VIOLATION" | head -3; fail=1
       fi
     fi
     git -C /repo worktree remove --force "$wt"; rm -rf "$tmpv"
